@@ -59,4 +59,19 @@ PROPS["C11"] = {
     "assumptions": ["the evm client's WaitForReceipt returns either an error or the transaction's receipt"],
 }
 
+PROPS["C02"] = {
+    "harness": {"kind": "cmd", "cmd": "signer"},
+    "level_text": "Theorems for every hash function H and every signature scheme S (primitives are parameters): acceptance characterisation (iff) of VerifyBid and VerifyPreConfirmation; field binding - equal bid digests imply equal tx-hash bytes, amount value, block number and timestamps, and equal commitment digests additionally equal bid digest and bid signature bytes, or an explicit H-collision is exhibited (injectivity of 256-bit two's complement on the int64 window and on [0,2^256), of lowercase hex, of fixed-width concatenation); malleation - (r, n-s) fails the low-S check (arithmetic on secp256k1's n); completeness - messages built by the node's own signing functions verify to its address (under the stated key-signer laws); no verification path panics. Tied to the real preconfsigner over real keys: primitive answers come from go-ethereum directly, all hashes are recomputed by the Lean Keccak; every single-field and several multi-field value-changing perturbations, digest substitution, s -> n-s, v flips, r/s bit flips, all signature/digest lengths 0..66, absent parts.",
+    "level_note": "Trusted: Lean kernel; differential harness; secp256k1 recover/verify and Keccak are parameters of the theorems (EUF-CMA and collision resistance turn the structural facts into the informal 'cannot forge' claim and are not proved); big.Int.SetString / math.U256Bytes modelled byte-exactly and compared on every case.",
+    "nontrivial_rule": "distinct (perturbation tag, outcome class) cells; every case is a fresh random key/field combination",
+    "assumptions": ["KeySigner.SignHash returns 65 bytes r||s||v with v in {0,1} and a canonical low-S signature (go-ethereum crypto.Sign)"],
+}
+PROPS["C03"] = {
+    "harness": {"kind": "cmd", "cmd": "signer"},
+    "level_text": "Theorems for every hash function H: for every tx-hash string, every amount text whose value is < 2^64 and every block number / timestamp in [0,2^63), GetBidHash equals the digest of a generic EIP-712 encoder (encodeType/hashStruct/domain separator/0x19 0x01 envelope written from the standard) for domain (PreConfBid, 1) and GetPreConfirmationHash equals it for (PreConfCommitment, 1) with the two extra string members set to the lowercase hex of bid digest and bid signature; encodeType of the published schemas equals the type strings regenerated from the Go source (kernel-checked on byte lists); emitted signatures are 65 bytes r||s||v with v in {27,28}. Three-way differential on every run: Go digest = Lean Keccak-executed generic digest = go-ethereum signer/core/apitypes.TypedDataAndHash.",
+    "level_note": "Trusted: Lean kernel; the executable Lean Keccak-256 is used only to run the spec (theorems hold for every H); apitypes as independent implementation; harness.",
+    "nontrivial_rule": "distinct (kind, length class of tx-hash string, boundary class of amount) - counted as distinct (tag, model digest) pairs",
+    "assumptions": ["KeySigner.SignHash contract as in C02"],
+}
+
 NOT_CLAIMED = {}
